@@ -10,7 +10,8 @@ ok=0; bad=0
 for d in /verif/seeded/$pat/; do
   name=$(basename $d); id=${name%%-*}
   git -C $wt checkout -q -- . ; git -C $wt apply $d/patch.diff || { echo "$name: patch does not apply to current HEAD"; bad=$((bad+1)); continue; }
-  out=$(GVMC_TREE=$wt GVMC_OUT=/tmp/gvmc-out timeout 1500 /verif/run $id 2>&1); rc=$?
+  tier=$(/venv/bin/python -c "import json;print(json.load(open('$d/meta.json')).get('needs_tier','quick'))" 2>/dev/null)
+  out=$(GVMC_TREE=$wt GVMC_OUT=/tmp/gvmc-out timeout 2700 /verif/run $id --tier ${tier:-quick} 2>&1); rc=$?
   kinds=$(echo "$out" | grep -E '^\s+kind=' | awk '{print $1}' | head -3 | tr '\n' ' ')
   if [ $rc -eq 1 ]; then ok=$((ok+1)); echo "$name: detected ($kinds)"; else bad=$((bad+1)); echo "$name: NOT DETECTED rc=$rc"; fi
 done
